@@ -606,3 +606,12 @@ M('k16-set-joined', ['C03', 'C05'], Y23 + 'f1040_s1.py', "            types = []
   more=[(Y23 + 'f1040_s1.py', "                types.append(\"Refund of overpaid mortgage interest\")", "                types.add(\"Refund of overpaid mortgage interest\")"),
         (Y23 + 'f1040_s1.py', "                types.append(i['other_income_type'])", "                types.add(i['other_income_type'])")])
 M('r17-dotted-input-name', ['C17'], Y23 + 'fnc_d_400_ss.py', "'section_1400z-2_gain'", "'section_1400z.2_gain'", 'R17', 'an input name with a dot: the constructor\'s own assertion refuses it (the form cannot be built)', count=None)
+M('k9-meet-after-the-try', ['C06'], S, "            self._v[field.name()] = field.value(form_inputs, form_values)\n            self._field_dependencies.meet(field.name())\n",
+  "            self._v[field.name()] = field.value(form_inputs, form_values)\n", 'K9', 'meet() moved behind the try: the FieldNotImplemented handler falls through to it (seed C06-P)',
+  more=[(S, "            self._unimplemented_fields.append(fni.field_name)\n", "            self._unimplemented_fields.append(fni.field_name)\n        self._field_dependencies.meet(field.name())\n"),
+        (S, "            self._field_dependencies.add_unmet(ud.dependency, field)\n        except inputs.MissingInput as mi:\n            self._input_dependencies.add_unmet(mi.input_name, field)\n",
+            "            self._field_dependencies.add_unmet(ud.dependency, field)\n            return\n        except inputs.MissingInput as mi:\n            self._input_dependencies.add_unmet(mi.input_name, field)\n            return\n")])
+M('k11d-subclass-converts-itself', ['C11'], IN, "class EnumInput(StringInput):\n", "class PercentInput(FloatInput):\n    def value(self, string):\n        return float(string.strip().rstrip('%'))\n\nclass EnumInput(StringInput):\n", 'K11d',
+  'a subclass of FloatInput converts with float() itself and loses the finiteness test (seed C11-O)')
+M('l6-list-edited-while-iterated', ['C16', 'C05', 'C03'], Y23 + 'f1040_s1.py', "            types = []\n", "            types = []\n            for t_ in types:\n                types.remove(t_)\n", 'L6',
+  'a list is edited inside the loop that iterates over it (seed C16-O)')
